@@ -115,7 +115,13 @@ pub fn gen(ctx: &Ctx, rng: &mut Rng, out: &mut Vec<String>) {
                 if axes.is_empty() { /* 1-D: nothing admissible; skip the option */ }
                 else if rng.chance(1, 2) {
                     let keep: Vec<usize> = { let mut kk: Vec<usize> = (0..d).filter(|i| !axes.contains(i)).collect(); rng.shuffle(&mut kk); kk };
-                    if !bad && !keep.is_empty() { cur_shape = (0..d).filter(|i| keep.contains(i)).map(|i| shape[i]).collect(); o.keep = Some(keep); }
+                    if !bad && !keep.is_empty() {
+                        cur_shape = (0..d).filter(|i| keep.contains(i)).map(|i| shape[i]).collect();
+                        // the keep list is a set: an axis named twice (adjacent or not), or an axis the spectrum does not have, changes nothing
+                        let mut keep = keep;
+                        match rng.below(5) { 0 => { let k0 = keep[0]; keep.push(k0); } 1 => { let kl = *keep.last().unwrap(); keep.insert(0, kl); } 2 => { keep.push(d + rng.below(3) as usize); } _ => {} }
+                        o.keep = Some(keep);
+                    }
                     else { o.remove = Some(axes.clone()); if !bad { cur_shape = (0..d).filter(|i| !axes.contains(i)).map(|i| shape[i]).collect(); } }
                 } else {
                     o.remove = Some(axes.clone());
